@@ -20,8 +20,15 @@ MOD = "vlib.checks.c11"
 FILES = ["cspuz/puzzle/%s.py" % s.module for s in S.ALL] + ["cspuz/graph.py", "cspuz/solver.py"]
 
 
-def _run_real(sp, d):
-    """runs the real solve_<puzzle> with the module's Solver substituted by a recording subclass"""
+class _SolveTimeout(Exception):
+    pass
+
+
+def _run_real(sp, d, real_solve=True, solve_timeout_s=150):
+    """runs the real solve_<puzzle> with the module's Solver substituted by a recording subclass.  real_solve=False: the
+    posted program is all that is wanted - solve()/find_answer() answer True without searching (a changed program may be
+    arbitrarily hard to solve); real_solve=True: the real search, under a wall-clock limit"""
+    import signal
     mod = importlib.import_module("cspuz.puzzle." + sp.module)
     made = []
 
@@ -29,6 +36,23 @@ def _run_real(sp, d):
         def __init__(self):
             super().__init__()
             made.append(self)
+
+        def solve(self, *a, **kw):
+            if not real_solve:
+                return True
+            return super().solve(*a, **kw)
+
+        def find_answer(self, *a, **kw):
+            if not real_solve:
+                return True
+            return super().find_answer(*a, **kw)
+
+    def _alarm(signum, frame):
+        raise _SolveTimeout()
+    old = None
+    if real_solve:
+        old = signal.signal(signal.SIGALRM, _alarm)
+        signal.setitimer(signal.ITIMER_REAL, solve_timeout_s)
     saved = mod.Solver
     mod.Solver = Rec
     try:
@@ -37,6 +61,9 @@ def _run_real(sp, d):
             ret = sp.call(mod, d)
     finally:
         mod.Solver = saved
+        if real_solve:
+            signal.setitimer(signal.ITIMER_REAL, 0)
+            signal.signal(signal.SIGALRM, old)
     if len(made) != 1:
         raise AssertionError("expected exactly one Solver to be created, saw %d" % len(made))
     return made[0], ret
@@ -44,7 +71,7 @@ def _run_real(sp, d):
 
 def build(d):
     sp = S.BY_NAME[d["puzzle"]]
-    solver, ret = _run_real(sp, d)
+    solver, ret = _run_real(sp, d, real_solve=False)
     xv = sp.answers(ret)
 
     def spec_z3(env):
@@ -75,7 +102,11 @@ def decide(d, timeout_s):
         return res
     try:
         sp = S.BY_NAME[d["puzzle"]]
-        solver, ret = _run_real(sp, d)
+        try:
+            solver, ret = _run_real(sp, d)
+        except _SolveTimeout:
+            res["facts"] = "inconclusive"
+            return res
         xv = sp.answers(ret)
         env = ref.Env()
         R = z3.And(env.domain(xv), sp.rule(d, ret, env))
